@@ -323,7 +323,7 @@ def rule_one1(A: Analysis, rep):
         "self._most_relevant_version = self._retrieve_most_relevant_existing_version(%s)" % ctx in A_inline(A, ens) and body[-1] == "self._did_retrieve_version = True"
     rep.check(ok, "ONE1", "memoised once", ens.node, "", "_ensure_…_computed no longer memoises the selector's result")
     stores = sorted({f.name for (f, _s, _v) in A.field_stores("conductor.task_types.run.RunExperiment", "_most_relevant_version")})
-    rep.check(stores == ["__init__", "_create_new_version", "_ensure_most_relevant_existing_version_computed"], "ONE1", "writers of the selection", None, "",
+    rep.check(stores == ["__init__", "_ensure_most_relevant_existing_version_computed", "create_new_version"], "ONE1", "writers of the selection", None, "",
               "_most_relevant_version is written in %s" % stores)
     gp = A.fn(RUNX + "get_output_path")
     g = A.cfg(gp, "plain")
